@@ -24,6 +24,8 @@ class StackFrame:
 class LoopFrame(StackFrame):
     def __init__(self, parent):
         super().__init__(parent)
+        # A loop is part of the enclosing call: its parameters stay visible.
+        self.params = parent.params
         self._loop_var = {}
 
     def get_loop_var(self, index):
